@@ -25,7 +25,8 @@ def judge(res, code, keys, cfg, r, table):
         res.inconc("analysis-error:%s" % ",".join(kinds))
         return
     res.judged += 1
-    literal = {int(k, 16) for k in r["storage_keys"]["literal_keys"]}
+    # literal keys of executed accesses: as held by the VM states (primary) and as seen in the exported values
+    literal = {int(k, 16) for k in r["storage_keys"]["literal_keys"]} | {int(k, 16) for k in r["storage_keys"].get("state_literal_keys", [])}
     slots = {int(e["index"], 16) for e in r["layout"]}
     res.count("literal_keys_executed", len(literal))
     res.count("programs_with_big_keys", int(any(k >= 1 << 64 for k in literal)))
@@ -38,7 +39,7 @@ def judge(res, code, keys, cfg, r, table):
         k = missing[0]
         size = "small" if k < 1 << 64 else ("64-128" if k < 1 << 128 else ">=2^128")
         modes = sorted(keys.get(k, {"?"}))
-        res.violation("c06:missed-slot:%s:%s" % (size, "+".join(modes)),
+        res.violation("c06:missed-slot:%s" % size,
                       "literal key %s accessed (%s) but the layout has no entry at that index; layout slots: %s" % (
                           hex(k), modes, [hex(s) for s in sorted(slots)[:8]]), case)
 
@@ -51,10 +52,10 @@ def shard(shard_no, nshards, seed, tier, extra):
     n = 330 if tier == "quick" else 18000
     d = common.Driver("rel", shim=False)
     for i in range(n):
-        code, keys = progs.literal_keys(rng, B)
         cfg = {"permissive": True}
         if rng.random() < 0.3:
             cfg["vsize"] = rng.choice([1, 2, 3, 5, 10, 40])
+        code, keys = progs.literal_keys(rng, B, size_hint=cfg.get("vsize"))
         if rng.random() < 0.2:
             cfg["iters"] = rng.randint(1, 3)
             cfg["forks"] = rng.randint(1, 3)
@@ -80,7 +81,8 @@ def run(tier, seed, t0):
         "symbolic jumps, INVALID, REVERT or SELFDESTRUCT, amid value-growing noise; value size limit 1..250, small "
         "iteration/fork limits; permissive mode. distinct = (bytecode, config); non-trivial = at least one literal-key "
         "access executed",
-        t0, ["'executed' means a storage node with that literal key exists in the execution result",
+        t0, ["'executed' means the storage of some stored VM state holds an entry under that literal key (every SLOAD / "
+             "SSTORE leaves one), or a storage node with that key exists among the exported values",
              "keys equal to keccak(i), i < 10000, are exempt (they denote array data)"], min_judged=100)
 
 
